@@ -24,7 +24,9 @@ PROPERTIES = ['C05']
 
 XFORMS = ['copy', 'slice', 'apply', 'stack', 'subset', 'renamevar', 'renamedim',
           'insertdim', 'rmsingleton', 'reorder', 'mask', 'eval', 'binop',
-          'interp', 'from_ncf', 'getvarpnc', 'interpsigma']
+          'interp', 'from_ncf', 'getvarpnc', 'interpsigma', 'pncexpr', 'slice_dim',
+          'reduce_dim']
+# (mask_vals is an in-place helper: it edits and returns the file it was given)
 # the property's queries: time decoding, value-to-index lookup, dump/repr,
 # save (getVarlist/audit_meta repair metadata by design and are not queries
 # in the property's sense)
@@ -172,7 +174,7 @@ def gen_op(rng, st):
     st.nsteps += 1
     # handles returned by save() are raw netCDF4 datasets opened for writing:
     # they take part in the lifecycle schedule but are not receivers
-    live = [s for s in st.slots.values() if s.life == 'open' and s.kind != 'saved']
+    live = [s for s in st.slots.values() if s.life == 'open' and s.kind not in ('saved', 'view')]
     if rng.random() < c['life_share'] or not live:
         name = _pick(rng, c['lweights']) or 'clock_jump'
         if name == 'open':
@@ -375,6 +377,24 @@ def _gen_xform(rng, st, s, name, live):
     elif name == 'interpsigma':
         op['levels'] = rng.choice([[1.0, 0.5, 0.0], [1.0, 0.75, 0.25, 0.0], [1.0, 0.0]])
         op['kind'] = rng.choice(['linear', 'conserve'])
+    elif name == 'pncexpr':
+        # functional form; its result WRAPS the input (documented sharing), so the
+        # result slot only takes part in the lifecycle schedule
+        a = rng.choice(datav)[0] if datav else None
+        op['expr'] = ('NEWV = %s * 2' % a) if a else 'NEWV = 1'
+    elif name == 'slice_dim':
+        if dims:
+            d, n = rng.choice(dims)
+            a = rng.randrange(0, max(1, n))
+            op['def'] = '%s,%d,%d' % (d, a, rng.randrange(a, n) + 1)
+        else:
+            op['def'] = 'x,0,1'
+    elif name == 'reduce_dim':
+        op['def'] = '%s,%s' % (rng.choice(dims)[0] if dims else 'x',
+                               rng.choice(['mean', 'sum', 'min', 'max']))
+    elif name == 'mask_vals':
+        op['def'] = '%s,%s' % (rng.choice(['greater', 'less', 'values', 'equal']),
+                               rng.choice(['0', '1000', '2002.5']))
     return op
 
 
@@ -406,6 +426,8 @@ def _gen_query(rng, st, s, name):
         st.tmpn += 1
         op['fmt'] = rng.choice(['NETCDF3_CLASSIC', 'NETCDF4_CLASSIC', 'NETCDF4',
                                 'NETCDF3_64BIT_OFFSET'])
+        if s.kind == 'uamiv' and rng.random() < 0.6:
+            op['fmt'] = 'uamiv'           # save through the CAMx gridded writer
         op['complevel'] = rng.choice([0, 0, 1])
         op['file'] = 'saved%d.nc' % st.tmpn
         op['sid'] = _sid(st)
@@ -604,6 +626,24 @@ def _do_xform(st, s, op):
             return None, 'noop'
         r = f.interpSigma(np.array(op['levels'], dtype='f'),
                           interptype=op.get('kind', 'linear'))
+    elif name == 'pncexpr':
+        from PseudoNetCDF.sci_var import pncexpr
+        r = pncexpr(op['expr'], f)
+        if r is None or r is f or not hasattr(r, 'variables'):
+            return None, 'not-a-file'
+        ns = _new_slot(st, op['sid'], r, 'view', src=src, via=name)
+        ns.writable = False
+        st.w.probe('wrapping_view_created')
+        return ns, 'view'
+    elif name == 'slice_dim':
+        from PseudoNetCDF.sci_var import slice_dim
+        r = slice_dim(f, op['def'])
+    elif name == 'reduce_dim':
+        from PseudoNetCDF.sci_var import reduce_dim
+        r = reduce_dim(f, op['def'])
+    elif name == 'mask_vals':
+        from PseudoNetCDF.sci_var import mask_vals
+        r = mask_vals(f, op['def'])
     else:
         raise HarnessError('unknown xform %s' % name)
     if r is None or r is f:
@@ -668,6 +708,16 @@ def _do_query(st, s, op):
         return tuple(sorted((k, repr(snapshot.canon_value(v))) for k, v in d.items()))
     if name == 'save':
         path = st.w.path(op['file'])
+        if op['fmt'] == 'uamiv':
+            path = path + '.uamiv'
+            h = f.save(path, format='uamiv', verbose=0)
+            st.pool[op['pid']] = {'kind': 'uamiv', 'path': path, 'sha': None}
+            if h is not None and hasattr(h, 'close'):
+                ns = _new_slot(st, op['sid'], h, 'saved', path=path, src=[s.id], via='save')
+                ns.writable = False
+                ns.model = None
+                return 'saved-camx->slot%d' % ns.id
+            return 'saved-camx'
         h = f.save(path, format=op['fmt'], complevel=op.get('complevel', 0),
                    verbose=0)
         st.pool[op['pid']] = {'kind': 'saved', 'path': path, 'sha': None}
@@ -866,7 +916,7 @@ def apply(st, op):
             except Exception as e:
                 obs['note'] = 'raised:' + type(e).__name__
             s.closes += 1
-            if s.kind != 'mem':
+            if s.kind not in ('mem',):
                 if s.life == 'closed':
                     w.probe('closed_twice')
                 s.life = 'closed'
@@ -952,7 +1002,9 @@ def apply(st, op):
                         'time: %s -> %s' % (op['name'], s.id, _kindsig(s),
                                             str(val)[:300], str(val2)[:300]),
                         sig={'op': op['name']})
-            if o == 'xform' and ns is not None:
+            if o == 'xform' and ns is not None and ns.kind == 'view':
+                pass
+            elif o == 'xform' and ns is not None:
                 m = _snap(st, ns)
                 if isinstance(m, Exception):
                     # result not well-formed/readable: C01's business, not C05's
@@ -964,7 +1016,8 @@ def apply(st, op):
                     obs['digest'] = snapshot.digest(m)
             if o == 'query' and op['name'] == 'save' and obs['note'] == 'ok':
                 for x in st.slots.values():
-                    if x.via == 'save' and x.model is None and x.life == 'open':
+                    if x.via == 'save' and x.model is None and x.life == 'open' \
+                            and hasattr(x.obj, 'variables'):
                         m = _snap(st, x)
                         if isinstance(m, Exception):
                             x.life = 'dropped'
